@@ -14,8 +14,10 @@ import pickle
 import random
 import re
 import shutil
+import signal
 import sys
 import tempfile
+import threading
 import types
 import xml.etree.ElementTree as ET
 
@@ -31,6 +33,17 @@ REAL_VERSION = rstorage.CACHE_VERSION
 VERS = [REAL_VERSION, b"radicale=9.9.9;vobject=0.0.0;"]
 LOGICAL_BASE = 10 ** 18         # logical mtimes: 10**18 + small (September 2001); real st_mtime_ns are > 1.7e18,
 LOGICAL_MAX = LOGICAL_BASE + 10 ** 12   # so float seconds cannot tell t from t+1 ns (a key built from st_mtime would be too coarse)
+
+class RequestHang(Exception):
+    """A request of a run did not answer within REQUEST_TIMEOUT seconds."""
+
+
+REQUEST_TIMEOUT = 30
+
+
+def _alarm(signum, frame):
+    raise RequestHang()
+
 
 CUR = [None]                    # the active harness (one per process)
 STOCK = ["utf-8"]               # [encoding] stock of the current pair / probe: the encoding of the item files
@@ -65,10 +78,13 @@ def install():
     # fault injection at the moment a cache entry is written (cache.py calls pickle.dump on the open entry file)
     def faulty_dump(obj, fb, *a, **k):
         h = CUR[0]
-        f = h.fault if h is not None else None
-        if f is not None and ((f["where"] == "upload" and h.cur_upload is not None and h.cur_get is None)
-                              or (f["where"] == "get" and h.cur_get is not None)):
-            h.fault = None
+        where = None
+        if h is not None:
+            where = "get" if h.cur_get is not None else ("upload" if h.cur_upload is not None else None)
+        f = h.faults.get(where) if where else None
+        if f is not None:
+            if not f.get("persistent"):
+                h.faults[where] = None
             h.fault_fired = f
             if f["kind"] == "partial":
                 data = pickle.dumps(obj)
@@ -119,7 +135,12 @@ def install():
 
     def w_store(self, href, item, cache_hash=""):
         h = CUR[0]
-        r = _ORIG["store"](self, href, item, cache_hash)
+        try:
+            r = _ORIG["store"](self, href, item, cache_hash)
+        except BaseException:
+            if h is not None and h.tracing and h.cur_get is not None:
+                h.prim(("storefail",))
+            raise
         if h is not None and h.tracing:
             h.prim(("store", cache_hash))
         return r
@@ -248,8 +269,8 @@ def g_adv(a):
 
 
 def g_cfg(cfg):
-    return "(mkCfg %s %s %d %s)" % ("MStat" if cfg["stat"] else "MHash", g_loc(cfg["sub"]), cfg["ver"],
-                                    "true" if cfg["skip"] else "false")
+    return "(mkCfg %s %s %d %s %s)" % ("MStat" if cfg["stat"] else "MHash", g_loc(cfg["sub"]), cfg["ver"],
+                                       "true" if cfg["skip"] else "false", "true" if cfg.get("cw", 1) else "false")
 
 
 def g_act(a):
@@ -361,7 +382,7 @@ class Run:
                        2: os.path.join(self.folder, "altcache", "collection-cache")}
         self.emit(("cfg", dict(self.cfg)), [])
         self.unmodelled = []
-        self.fault = None          # dict(where="upload"|"get", kind="before"|"partial"): next cache-entry write fails
+        self.faults = {"get": None, "upload": None}   # where -> dict(where=, kind="before"|"partial"[, persistent]): entry write fails
         self.fault_fired = None
         self.harness_write = False
         self.rule_violations = []
@@ -374,12 +395,19 @@ class Run:
         shutil.rmtree(self.folder, ignore_errors=True)
 
     def conf_of(self, cfg):
-        return {"storage": {"use_mtime_and_size_for_item_cache": str(bool(cfg["stat"])),
+        return {"storage": {"type": "multifilesystem_nolock" if cfg.get("nolock") else "multifilesystem",
+                            "use_mtime_and_size_for_item_cache": str(bool(cfg["stat"])),
                             "use_cache_subfolder_for_item": str(bool(cfg["sub"])),
                             "filesystem_cache_folder": os.path.join(self.folder, "altcache") if cfg["sub"] == 2 else "",
                             "skip_broken_item": str(bool(cfg["skip"]))},
                 "encoding": {"stock": STOCK[0]},
                 "auth": {"type": "none"}, "rights": {"type": "authenticated"}}
+
+    def set_cache_writable(self, ok, kind="before"):
+        """The cache location cannot be written (ENOSPC at every entry write of _get) until set back."""
+        self.cfg["cw"] = 1 if ok else 0
+        self.faults["get"] = None if ok else dict(where="get", kind=kind, persistent=True)
+        self.emit(("cfg", dict(self.cfg)), [])
 
     def reconfigure(self, cfg):
         self.cfg = dict(cfg)
@@ -469,6 +497,9 @@ class Run:
                 out += [13] + self.key_code(p[1])
             elif p[0] == "clean":
                 out += [14]
+            elif p[0] == "storefail":
+                stored = True
+                out += [17]
         if prims and prims[0] == ("load", False) and not stored and 12 not in out and 16 not in out:
             out += [15]
         return out
@@ -485,8 +516,7 @@ class Run:
             self.cur_upload["get"] = code
             return
         if self.fault_fired is not None and self.fault_fired["where"] == "get":
-            self.fault_fired = None           # probe only: the model has no "_get whose store fails" (state unchanged)
-            return
+            self.fault_fired = None
         self.set_lock(coll)
         if rec["interf"] is not None:
             self.emit(("getat", self.obj_of(coll), c, h, rec["interf"]), code)
@@ -693,12 +723,21 @@ class Run:
         self.req_gets = {}
         self._lk = None
         self.rule_violations = []
+        timed = threading.current_thread() is threading.main_thread()
+        if timed:
+            old_handler = signal.signal(signal.SIGALRM, _alarm)
+            signal.setitimer(signal.ITIMER_REAL, REQUEST_TIMEOUT)
         try:
             st, hd, body = self.srv.request(method, path, data=data, login="u:", **headers)
         finally:
+            if timed:
+                signal.setitimer(signal.ITIMER_REAL, 0)
+                signal.signal(signal.SIGALRM, old_handler)
             self.tracing = False
             self.interfere = None
-            self.fault = None
+            self.faults["upload"] = None
+            if self.cfg.get("cw", 1):
+                self.faults["get"] = None
             self.fault_fired = None
             self.cur_get = self.cur_upload = None
         # files written in hash mode get their logical mtime now (nobody has looked at it yet)
@@ -940,7 +979,7 @@ def _perform(run, d, failures):
     if k == "put":
         return _resp(run, "PUT", "/%s/%s" % (d[1], d[2]), item_body(COLLS[d[1]], d[3], d[4]))
     if k == "putfault":
-        run.fault = dict(where="upload", kind=d[5])
+        run.faults["upload"] = dict(where="upload", kind=d[5])
         return _resp(run, "PUT", "/%s/%s" % (d[1], d[2]), item_body(COLLS[d[1]], d[3], d[4]))
     if k == "get":
         r = _resp(run, "GET", "/%s/%s" % (d[1], d[2]))
@@ -1123,6 +1162,11 @@ def manipulate(run, rng, pool, counts, nxt=None, hash_only=False):
     """Between two requests of run B: do 1-3 things to the cache / the configuration."""
     for _ in range(rng.choice([1, 1, 2, 3])):
         ents = run.entries()
+        if rng.random() < 0.07 and run.cfg.get("cw", 1):
+            # the cache location is full / read-only during the next request: entries that are missing can not be written
+            run.set_cache_writable(False, rng.choice(["before", "partial"]))
+            counts["manip:cache-unwritable-for-next-request"] += 1
+            continue
         if rng.random() < 0.12:
             plant_residue(run, rng)
             counts["manip:residue-of-interrupted-atomic-write"] += 1
@@ -1233,7 +1277,8 @@ def run_pair(seed, length, keep_acts=True):
     hash_only = rng.random() < 0.25
     STOCK[0] = rng.choice(["utf-8", "utf-8", "iso-8859-1", "cp1252"])
     hist = gen_history(rng, length, hash_only)
-    base = dict(stat=0 if hash_only else rng.randrange(2), sub=rng.randrange(3), ver=0, skip=1 if rng.random() < 0.8 else 0)
+    base = dict(stat=0 if hash_only else rng.randrange(2), sub=rng.randrange(3), ver=0, skip=1 if rng.random() < 0.8 else 0,
+                cw=1, nolock=1 if rng.random() < 0.25 else 0)
     cfg_b = dict(base, stat=0 if hash_only else rng.randrange(2), sub=rng.randrange(3))
     dic = Dict()
     counts = collections.Counter()
@@ -1253,7 +1298,14 @@ def run_pair(seed, length, keep_acts=True):
                     manipulate(run, rb, pool, counts, d, hash_only)
                 itf = run.interfere
                 # run.request() clears the interference; keep it alive for this request only
-                r = perform_with_interference(run, d, fails, itf)
+                try:
+                    r = perform_with_interference(run, d, fails, itf)
+                except RequestHang:
+                    fails.append(("request-does-not-answer", d, "no answer within %d s" % REQUEST_TIMEOUT))
+                    rs.append(dict(status="HANG"))
+                    break
+                if not run.cfg.get("cw", 1):
+                    run.set_cache_writable(True)
                 rs.append(None if r is None else {k: v for k, v in r.items() if k != "raw"})
                 counts["%s:%s" % ("req" if d[0] != "ext" else "ext", d[0] if d[0] != "ext" else d[3])] += 1
                 if r is not None:
